@@ -200,8 +200,8 @@ def fixed_cases():
 
 
 def gen_cases(rng, tier):
-    n = 45 if tier == "quick" else 700
-    return fixed_cases() + gen_flat(rng, tier, n) + gen_nested(rng, tier, 25 if tier == "quick" else 300)
+    n = 160 if tier == "quick" else 1400
+    return fixed_cases() + gen_flat(rng, tier, n) + gen_nested(rng, tier, 60 if tier == "quick" else 500)
 
 
 # ------------------------------------------------------------------ documents and lifting
@@ -211,9 +211,16 @@ def to_doc(w, ctx):
     members by name, nested instances as dicts)"""
     if w is None or isinstance(w, (bool, int, str)):
         return w
-    for tag in ("l", "t", "q", "s", "fs"):
+    for tag in ("l", "t", "q"):
         if tag in w:
             return [to_doc(x, ctx) for x in w[tag]]
+    for tag in ("s", "fs"):
+        if tag in w:
+            xs = [to_doc(x, ctx) for x in w[tag]]
+            try:
+                return list(dict.fromkeys(xs))   # a set has no ==-duplicates (1.0 == True)
+            except TypeError:
+                return xs
     if "m" in w:
         out = {}
         for k, v in w["m"]:
@@ -310,6 +317,22 @@ def run_impl(case):
         res["ff_after"] = Structure.failing_fast()
     finally:
         Structure.set_fail_fast(True)
+    if mode == "deser" and res.get("raised") is not None:
+        # reference for classifying the two-phase finding only: which supplied fields does the
+        # first phase (deserialize_single_field, same real code, one field at a time) reject
+        from typedpy.serialization.serialization import deserialize_single_field
+        ign = bool(decl.get("ignoreNone"))
+        p1 = []
+        for k, v in kw.items():
+            if k not in decl_of or v is None:   # null document values are dropped by Deserializer
+                continue
+            try:
+                deserialize_single_field(getattr(cls, k), v, k, ignore_none=ign)
+            except (TypeError, ValueError):
+                p1.append(k)
+            except Exception:  # noqa
+                pass
+        res["phase1_rejects"] = p1
     return res
 
 
@@ -423,21 +446,29 @@ def path_of_text(t):
     return m.group(1) if m else None
 
 
-def classify_no_path(text, raised):
-    """stable phenomenon key for a message that does not begin with a field path"""
+COLLECTION_KINDS = ("seqAny", "seqOf", "seqPos", "setAny", "setOf", "tupleOf", "tuplePos", "mapAny", "mapOf")
+
+
+def classify_no_path(text, raised, mode, ff, invalid_kinds, supplied_kinds):
+    """stable phenomenon key (phenomenon:site) for a message that does not begin with a field path"""
     t = text
-    if raised == "IndexError" or "index out of range" in t:
-        return "no-path:index-error"
-    if "not supported between instances of" in t:
-        return "no-path:comparison-typeerror"
-    if "unhashable type" in t:
-        return "no-path:unhashable"
-    if "Invalid value:" in t:
-        return "no-path:enum-invalid-value"
-    if t.startswith("["):
-        return "field-lost:json-list-under-fail-fast"
-    if t.startswith("None: ") or re.match(r"^(?:\w+\.)?Expected ", t) or re.match(r"^(?:\w+\.)?Got ", t) or re.match(r"^(?:\w+\.)?Does not match", t):
-        return "no-path:unnamed-inner-field"
+    if mode == "deser" and (raised == "IndexError" and "index out of range" in t) and \
+            any(k in ("seqPos", "tuplePos", "tupleOf") for k in supplied_kinds):
+        return "no-path:index-error:deser-positional"
+    if "not supported between instances of" in t and "number-sign" in invalid_kinds:
+        return "no-path:comparison-typeerror:sign-mixin"
+    if t.startswith("unhashable type") and any(k in ("boolean", "enumCls") for k in invalid_kinds):
+        return "no-path:unhashable:boolean-enum"
+    if t.startswith("unhashable type") and mode == "deser" and \
+            any(k in ("setAny", "setOf", "mapAny", "mapOf") for k in supplied_kinds):
+        return "no-path:unhashable:deser-set"
+    if t.startswith("Invalid value:") and mode == "deser" and "enumCls" in invalid_kinds:
+        return "no-path:enum-invalid-value:deser"
+    if t.startswith("[") and mode == "deser" and ff:
+        return "field-lost:json-list-under-fail-fast:deser-falsy"
+    if mode == "deser" and any(k in COLLECTION_KINDS for k in invalid_kinds) and (
+            t.startswith("None: ") or t.startswith("Expected ") or t.startswith("Got ") or t.startswith("Does not match")):
+        return "no-path:unnamed-inner-field:deser-collection"
     return "no-path:other"
 
 
@@ -470,6 +501,19 @@ def oracle(case, impl, model):
     if not invalid:
         return fails
     cls_name = case["cls"]["name"]
+    invalid_kinds = set()
+    supplied = [k for k, _ in case["kw"]]
+    supplied_kinds = set(fd["k"] for n, fd in case["cls"]["fields"] if n in supplied)
+    for n, fd in case["cls"]["fields"]:
+        if n in invalid:
+            invalid_kinds.add(fd["k"])
+            if fd["k"] == "number" and fd.get("sign", "any") != "any":
+                invalid_kinds.add("number-sign")
+            for sub in ([fd.get("item")] + list(fd.get("items", [])) + [fd.get("key"), fd.get("val")]):
+                if isinstance(sub, dict):
+                    invalid_kinds.add(sub["k"])
+                    if sub["k"] == "number" and sub.get("sign", "any") != "any":
+                        invalid_kinds.add("number-sign")
     if re.match(re.escape(cls_name) + r": (missing a required argument|got an unexpected keyword|too many positional|multiple values)", msg or ""):
         # Signature.bind failure (e.g. a null document value dropped for a required field): the
         # rejection is about the argument list, not about an invalid supplied field
@@ -492,7 +536,7 @@ def oracle(case, impl, model):
         p = path_of_text(t)
         hit = [n for n in invalid if p is not None and names_field(p, cls_name, n)]
         if not hit:
-            lost_keys.append((classify_no_path(re.sub(r"^" + re.escape(cls_name) + r"\.", "", t), raised),
+            lost_keys.append((classify_no_path(re.sub(r"^" + re.escape(cls_name) + r"\.", "", t), raised, mode, ff, invalid_kinds, supplied_kinds),
                               f"message does not begin with a path naming an invalid field (invalid={invalid}): {t!r} [{where}]"))
     # (3) every ErrorInfo carries such a field and a non-empty problem
     for idx, i in enumerate(infos):
@@ -526,9 +570,16 @@ def oracle(case, impl, model):
             elif missing:
                 # deserialization collects in two phases (construct_fields_map, then the constructor):
                 # fields that only the constructor rejects are not reported when another field
-                # already failed in the first phase
-                fails.append(("collect-all:missing-field:deser-two-phase",
-                              f"invalid fields {missing} are not reported by deserialization: {msg!r} [{where}]"))
+                # already failed in the first phase.  Fields the first phase itself rejects (probe on
+                # the real deserialize_single_field) must all be there.
+                p1 = impl.get("phase1_rejects", [])
+                first = [n for n in missing if n in p1]
+                if first:
+                    fails.append(("collect-all:missing-field:deser-phase-one",
+                                  f"invalid fields {first} rejected by deserialize_single_field are not reported: {msg!r} [{where}]"))
+                else:
+                    fails.append(("collect-all:missing-field:deser-two-phase",
+                                  f"invalid fields {missing} are not reported by deserialization: {msg!r} [{where}]"))
             if len(infos) != len(set(named)) and mode == "construct":
                 fails.append(("collect-all:duplicate-or-extra", f"{len(infos)} entries for invalid fields {invalid}: {msg!r} [{where}]"))
     return fails
